@@ -67,8 +67,13 @@ type expandRun struct {
 
 // runExpandSpec decodes the root of c into *Swagger and expands it.
 func runExpandSpec(c gen.GraphCase, refused map[string]bool, opts spec.ExpandOptions) (res expandRun) {
+	return runExpandSpecOn([]byte(c.Docs[c.Root]), c, refused, opts)
+}
+
+// runExpandSpecOn expands rootJSON (served documents are those of c).
+func runExpandSpecOn(rootJSON []byte, c gen.GraphCase, refused map[string]bool, opts spec.ExpandOptions) (res expandRun) {
 	var sw spec.Swagger
-	if err := json.Unmarshal([]byte(c.Docs[c.Root]), &sw); err != nil {
+	if err := json.Unmarshal(rootJSON, &sw); err != nil {
 		res.Panic = "harness: root does not decode: " + err.Error()
 		return
 	}
